@@ -754,7 +754,7 @@ impl Property for C18 {
     type Case = Case;
     const ID: &'static str = "C18";
     fn cases(tier: Tier) -> u64 {
-        tier.pick(60_000, 3_000_000)
+        tier.pick(300_000, 6_000_000)
     }
     fn strategy(tier: Tier) -> BoxedStrategy<Case> {
         let n = tier.pick(300usize, 600usize);
